@@ -27,16 +27,29 @@ def c15_struct(tier="quick", seed=0):
                 consumers.append((f.name, n.lineno, "for " + _S_.unparse(n.target) + " in " + n.iter.id))
             if isinstance(n, ast.Call) and isinstance(n.func, ast.Attribute) and n.func.attr == "pop" and isinstance(n.func.value, ast.Name) and n.func.value.id in set_names:
                 consumers.append((f.name, n.lineno, _S_.unparse(n)))
-    allowed_forms = ("list(captured)", "list(required_free)", "for var in local_vars_set", "for var in nested_free")
-    bad = [c for c in consumers if c[2] not in allowed_forms]
+    # the only order-sensitive uses allowed are those that feed another SET (membership only); whatever numbers slots
+    # (locals, cell and free variable tables) must go through sorted(): slot numbers reach the script through the
+    # "operand N does not fit" refusal and decide which variable trips a size limit
+    allowed_forms = ("for var in nested_free",)
+    bad = [c for c in consumers if c[2] not in allowed_forms and not c[2].startswith("sorted(")]
     out.append(ob("C15.struct.set-order-consumers", not bad and len(consumers) >= 4, "K3",
-                  f"set-order consumers: {[(c[0], c[2]) for c in consumers]}; outside the name-table forms: {bad}"))
+                  f"set-order consumers: {[(c[0], c[2]) for c in consumers]}; neither sorted() nor feeding a set: {bad}",
+                  witness="a function with 300 used locals: the refusal names a different operand under each PYTHONHASHSEED"))
+    feeds_set = True
+    for f in ast.walk(comp):
+        if isinstance(f, ast.FunctionDef):
+            for n in ast.walk(f):
+                if isinstance(n, ast.For) and isinstance(n.iter, ast.Name) and n.iter.id == "nested_free":
+                    calls = [c for c in ast.walk(n) if isinstance(c, ast.Call)]
+                    stores = [c for c in ast.walk(n) if isinstance(c, (ast.Assign, ast.AugAssign))]
+                    feeds_set = feeds_set and not stores and all(isinstance(c.func, ast.Attribute) and c.func.attr in ("add", "_is_in_outer_scope") for c in calls)
+    out.append(ob("C15.struct.set-order-consumers.loops-feed-sets", feeds_set, "K3", "the loops over nested_free only add to another set"))
     # 1b. the same question for every module, by inference instead of by variable name: an expression is a set if it
     # is a set display/comprehension, set()/frozenset(), set arithmetic (also on dict key/item views, which yields a set),
     # a call of a function that returns one, or a local assigned from one; order-sensitive uses are for-loops, list/tuple/
     # enumerate/iter/next/zip/join/extend/fromkeys, comprehensions other than set comprehensions, unpacking and pop()
     found, set_funcs = S.scan_all(S.source().modules)
-    bad2 = [c for c in found if not (c[0] == "microjs.compiler" and c[3] in allowed_forms)]
+    bad2 = [c for c in found if not (c[0] == "microjs.compiler" and c[3] in allowed_forms)]   # (sorted() is not order sensitive and is not reported)
     out.append(ob("C15.struct.set-order-consumers.all-modules", not bad2 and len(found) >= 4, "K3",
                   f"{len(found)} order-sensitive uses of a set in the package (set-returning functions: {sorted(set_funcs)}); outside the compiler's name tables: {bad2}",
                   witness="enumerate the own keys of a function's prototype object under several PYTHONHASHSEED values"))
@@ -75,7 +88,8 @@ def c15_struct(tier="quick", seed=0):
                     t = _S_.unparse(n.func)
                     if t in ("id", "hash", "os.urandom", "os.getpid", "random.random", "random.randint", "time.time", "time.monotonic", "time.perf_counter", "uuid.uuid4"):
                         hidden.append((mod.split(".")[-1], f.name, t))
-    allowed = {("vm", "run", "time.monotonic"), ("vm", "_check_limits", "time.monotonic"), ("vm", "check_timeout", "time.monotonic"), ("vm", "<lambda>", "time.monotonic"),
+    allowed = {("vm", "attempt", "id"),      # key of a per-call dictionary (one matcher per RegExp object for the call): never ordered, never shown
+               ("vm", "run", "time.monotonic"), ("vm", "_check_limits", "time.monotonic"), ("vm", "check_timeout", "time.monotonic"), ("vm", "<lambda>", "time.monotonic"),
                ("context", "check_timeout", "time.monotonic"), ("context", "random_fn", "random.random"), ("context", "now_fn", "time.time"),
                ("context", "_call_function", "time.monotonic"), ("vm", "match", "time.monotonic"), ("vm", "search", "time.monotonic"),
                ("values", "convert", "id"), ("context", "_to_python", "id"), ("context", "_to_js", "id"), ("vm", "_adopt", "id"),      # (memo tables / visited sets of one conversion)
@@ -108,6 +122,13 @@ ENUM_PROGS = [
     ("[String(Math.max), '' + parseInt, [JSON.parse, Object.keys].join('|'), String(function named(a) { return a }), '' + (() => 1), String(Math), String(JSON), String(new Error('e')), "
      "String(/r/g), String([1, [2]]), String({}), String(Object), String(Array), String((function(){}).bind(null)), String(new Uint8Array(2)), String(new ArrayBuffer(2))].join('#')", ANY),
     ("var o = Object.create({inh1: 1, inh2: 2, inh3: 3}); o.own1 = 1; o.own2 = 2; var ks = []; for (var k in o) ks.push(k); ks.join()", "own1,own2"),
+    # error messages: the same text in every process (values are described, never printed with the host's repr)
+    ("var ms = []; [function(){ new Math.abs() }, function(){ ({f: Math.abs})() }, function(){ Math() }, function(){ var o = {f: parseInt}; o() }, function(){ new (() => 1)() },"
+     " function(){ [1].map({}) }, function(){ [1].sort(JSON) }, function(){ new JSON() }, function(){ (1.5)() }, function(){ 'abc'.replace(/b/, Math)(); }, function(){ null.x },"
+     " function(){ undefinedName }, function(){ new Array(-1) }].forEach(function(t){ try { t(); ms.push('no error') } catch (e) { ms.push(e.name + ': ' + e.message) } }); ms.join('#')", ANY),
+    # what is refused for its size is refused with the same words in every process (slot numbers are not hash ordered)
+    ("function big(){ " + "".join(f"var v{i} = {i}; " for i in range(300)) + "return " + " + ".join(f"v{i}" for i in range(300)) + " } big()", ("exc", ANY)),
+    ("function big2(" + ", ".join(f"p{i}" for i in range(20)) + "){ " + "".join(f"var w{i} = function(){{ return w{i} }}; " for i in range(280)) + "return 1 } big2()", ("exc", ANY)),
 ]
 
 
@@ -151,7 +172,8 @@ def c15_hashseeds(tier="quick", seed=0):
             bad_seed = (s, "subprocess failed: " + (err or ""))
             continue
         for i, o in enumerate(outs):
-            if o != ["ok", expect[i]] and wrong is None:
+            want = ["exc", expect[i][1]] if isinstance(expect[i], tuple) and expect[i][:1] == ("exc",) else ["ok", expect[i]]
+            if o != want and wrong is None:
                 wrong = (s, i, o, expect[i])
     base = next((outs for s, outs, e in res if outs is not None), None)
     differs = None
